@@ -903,6 +903,14 @@ class StrTr(Tr):
                 raise Unsupported("re.sub pattern")
             if isinstance(n.func, ast.Attribute) and n.func.attr == "lower" and not n.args:
                 return f"(CR.PyC01.strLower {self.e(n.func.value)})"
+        if isinstance(n, ast.IfExp):
+            # `(← …)` inside a term-level `if` would be lifted out of it (evaluated on both paths): not a translation
+            before, self.uses_bind = self.uses_bind, False
+            txt = f"(if {self.e(n.test)} then {self.e(n.body)} else {self.e(n.orelse)})"
+            if self.uses_bind:
+                raise Unsupported("partial operation inside a conditional expression")
+            self.uses_bind = before
+            return txt
         if isinstance(n, ast.Attribute) and self.dotted(n) == "precision.decimals":
             return "(P.d : Int)"
         return super().e(n)
